@@ -200,3 +200,61 @@ CHECKS["C20"] = {
         "kill points are sampled in time (6 / 200 kills), the model covers a crash between any two recorder actions",
     ],
 }
+
+_STEPS_GEN = [{"module": "Gen_Steps", "cfg": "Gen_Steps.cfg", "cfg_thorough": "Gen_Steps_thorough.cfg",
+               "env": "GEN_OUT", "out": "gen_steps.json", "arg": "--gen"}]
+CHECKS["C15"] = {
+    "title": "population size is invariant across generations and step compositions",
+    "run": std_run,
+    "generators": _STEPS_GEN,
+    "models": [
+        {"module": "MC_Steps", "cfg": "MC_Steps.cfg", "cfg_thorough": "MC_Steps_thorough.cfg", "workers": 12, "timeout": 1500},
+        {"module": "MC_Steps", "cfg": "MC_Steps_ascoded.cfg", "workers": 12, "expect_violation": "is violated"},
+    ],
+    "drivers": [{"module": "harness.drv_steps", "trace": "Trace_Steps", "args": ["--prop", "C15"]}],
+    "shards": {"quick": 4, "thorough": 14},
+    "rule": "one trace per (TLC-enumerated step composition, population size, input form) applied with the real "
+            "combinators and probe-wrapped real leaves, per GP run (sizes of all generations) and one for all "
+            "initialisers / injected initial populations; quick covers a rotating third of the depth-one space",
+    "assumptions": [
+        "step compositions come from TLC (Gen_Steps): the complete depth-one space over weights {0,1,2} (quick) / "
+        "{0,1,2,5} (thorough) plus sampled nestings up to depth three",
+        "a probe materialises its input to learn its length and hands the real step an object of the same form",
+        "events of probes whose generator was not run to exhaustion are not judged",
+    ],
+}
+CHECKS["C16"] = {
+    "title": "elitism keeps the best",
+    "run": std_run,
+    "models": [
+        {"module": "MC_Select", "cfg": "MC_Select.cfg", "cfg_thorough": "MC_Select_thorough.cfg", "workers": 12, "timeout": 1500},
+        {"module": "MC_Select", "cfg": "MC_Select_worstfirst.cfg", "workers": 12, "expect_violation": "is violated"},
+    ],
+    "drivers": [{"module": "harness.drv_steps", "trace": "Trace_Steps", "args": ["--prop", "C16"]}],
+    "shards": {"quick": 1, "thorough": 8},
+    "rule": "one trace per population (ties, a duplicated member, both directions) with the real ElitismStep applied "
+            "for every k in 1..|pop| on list / iterator / Population inputs; plus GP runs recording the fitness of "
+            "every generation together with the elite slots the composition reserved",
+    "assumptions": [
+        "run-level monotonicity is judged only when the elitism step reserved >= 1 slot AND was shown the whole "
+        "previous generation (observed through its probe); an ExclusiveParallelStep shows it a slice only",
+    ],
+}
+CHECKS["C17"] = {
+    "title": "selection operators are sound (tournament and lexicase)",
+    "run": std_run,
+    "models": [
+        {"module": "MC_Select", "cfg": "MC_Select.cfg", "cfg_thorough": "MC_Select_thorough.cfg", "workers": 12, "timeout": 1500},
+    ],
+    "drivers": [{"module": "harness.drv_steps", "trace": "Trace_Steps", "args": ["--prop", "C17"]}],
+    "shards": {"quick": 4, "thorough": 14},
+    "exhaustive": True,
+    "rule": "one trace per OUTCOME of the random draws: the real TournamentSelection / LexicaseSelection are driven "
+            "through every outcome of their choice / shuffle calls by a scripted source for small populations "
+            "(tournament: sizes 1-3(5), with/without replacement, all target sizes; lexicase: 2-3 cases, mixed "
+            "directions, plain and epsilon)",
+    "assumptions": [
+        "participants of a tournament are the individuals returned by the random source's choice between two winners",
+        "epsilon-lexicase bands are computed exactly in TLC (median absolute deviation in units of 1/4)",
+    ],
+}
